@@ -16,6 +16,7 @@ def run(ctx: Ctx, chk) -> None:
     chk.assume("A1", "A5", "A6")
     chk.run_rule(write_then_forget, ctx)
     chk.run_rule(error_propagates, ctx)
+    chk.run_rule(flush_total, ctx)
 
 
 def write_then_forget(ctx: Ctx, chk, loss_only: bool = False) -> None:
@@ -214,3 +215,25 @@ def error_propagates(ctx: Ctx, chk) -> None:
                 bf, bc, bh = blocked
                 chk.refute(rule, f"{bf.fq}::{norm(bc)[:80]}::swallows", f"`{norm(bc)[:70]}` in {bf.qualname} is enclosed by a handler (line {bh.lineno}) that swallows the transport error of a failing write", ctx.loc(bf, bc), version=V)
     chk.floor(rule, "call paths listen -> flush -> write examined", n, 6)
+
+
+def flush_total(ctx: Ctx, chk) -> None:
+    rule = "FLUSH-TOTAL"
+    chk.rule(rule, "a wake-up always looks at the buffer itself: every normal path through the flush reaches the loop over the parked entries (no early return on a side marker such as 'nothing is waiting for this node' - after a failed flush the marker and the buffer disagree and the left-over commands are never written)")
+    for f in sb.flush_functions(ctx):
+        fl = sb.analyse_flush(ctx, f)
+        g = fl.cfg
+        chk.instance(rule)
+        key = f"{f.fq}::always-iterates"
+        # the snapshot / iteration statements: the loop header and (for a snapshot) the statement that builds it
+        heads = [x for x in g.nodes if x.kind == "iter" and x.ast is fl.loop]
+        outer = fl.loop
+        while outer in ctx.prog.parents and isinstance(ctx.prog.parents[outer], (ast.For, ast.AsyncFor)):
+            outer = ctx.prog.parents[outer]
+        if outer is not fl.loop:
+            heads = [x for x in g.nodes if x.kind == "iter" and x.ast is outer]
+        p = g.reach_avoiding([g.entry], lambda x: x is g.exit, lambda x: x in heads, labels_skip=("exc",), from_succ=False)
+        if p is None:
+            chk.ok(rule, key, "every normal path reaches the iteration over the parked entries", ctx.loc(f, fl.loop))
+        else:
+            chk.refute(rule, key, f"the flush can return without looking at the buffer ({' -> '.join(g.path_text(p)[1:5])}): whatever that shortcut is decided on must agree with the buffer after every failed or interrupted flush, otherwise parked commands are never written", ctx.loc(f, p[-2].ast if len(p) > 1 and p[-2].ast is not None else fl.loop))
